@@ -118,6 +118,7 @@ var zzC17Requests = []struct {
 	{"{ nope }", "validation"},
 	{"query($v:Boolean!){ a @skip(if:$v) }", "variable"}, // $v not supplied
 	{"{ a o{ynn} }", "field"},                           // ynn fails
+	{"{ a o{ynn x} b }", "fieldpanic"},                  // the ynn resolver panics
 }
 
 // ZZ_C17_hooks: hooks are balanced, ordered, told the phase outcome and
@@ -152,6 +153,14 @@ func ZZ_C17_hooks() {
 		w.hook = func(parent, field string, p ResolveParams) (interface{}, error, bool) {
 			if field == "ynn" {
 				return nil, errors.New("boom"), true
+			}
+			return nil, nil, false
+		}
+	}
+	if req.outcome == "fieldpanic" {
+		w.hook = func(parent, field string, p ResolveParams) (interface{}, error, bool) {
+			if field == "ynn" {
+				panic("resolver boom")
 			}
 			return nil, nil, false
 		}
